@@ -123,8 +123,18 @@ func vsPoll(self *Metadata) {}
 //verif:stub (*github.com/martian-lang/martian/martian/core.Metadata).mkdirs
 func vsMkdirs(self *Metadata) error { return nil }
 
+// uniquify: the directory work is skipped; the attempt identity is kept as in
+// the real function: a new uniquifier is drawn only if none is set
+var vsUniqCounter int
+
 //verif:stub (*github.com/martian-lang/martian/martian/core.Metadata).uniquify
-func vsUniquify(self *Metadata) error { return nil }
+func vsUniquify(self *Metadata) error {
+	if self.uniquifier == "" {
+		vsUniqCounter++
+		self.uniquifier = "fresh0000" + string(rune('0'+vsUniqCounter%10))
+	}
+	return nil
+}
 
 //verif:stub (*github.com/martian-lang/martian/martian/core.Metadata).discoverUniquify
 func vsDiscoverUniquify(self *Metadata) {}
@@ -1041,6 +1051,12 @@ func H_C05_metadataRestart(op int) {
 	verifAssume(verifImplies(vsHas(m, QueuedLocally), verifAll(!vsHas(m, LogFile), !vsHas(m, CompleteFile))))
 	verifAssume(!vsHas(m, DisabledFile))
 	vsPidZero, vsPidDead, vsJobInfoErr = verifBool("pid.unrecorded"), verifBool("pid.dead"), verifBool("jobinfo.unreadable")
+	// the attempt being judged may have run under a uniquified directory
+	oldUniq := ""
+	if verifBool("attempt.uniquified") {
+		oldUniq = "0123456789"
+	}
+	m.uniquifier = oldUniq
 	st, known := m.getState()
 	queuedLocally := vsHas(m, QueuedLocally)
 	var err error
@@ -1064,6 +1080,10 @@ func H_C05_metadataRestart(op int) {
 		verifCover("job reset")
 		verifAssert(st != Complete && st != DisabledState, "C05: a job whose completion is recorded is never reset")
 		verifAssert(len(m.contents) == 0, "C05: after a reset nothing of the old attempt remains cached")
+		if oldUniq != "" {
+			verifCover("uniquified attempt reset")
+			verifAssert(m.uniquifier != oldUniq, "C05/C11: the attempt that replaces a reset one gets a new uniquifier, so late notifications of the abandoned attempt are not taken for its own")
+		}
 	} else {
 		verifAssert(vsHas(m, CompleteFile) == (st == Complete) || st == Failed, "C05: a job that is not reset keeps its recorded state")
 	}
